@@ -34,6 +34,8 @@ pub enum Ev {
     Remove { k: u64 },
     DropCaller { c: u64 },
     Abort,
+    /// a call whose leader task is cancelled before it is polled for the first time
+    CallAbort { c: u64, k: u64, disk: bool, fetch: bool },
 }
 
 enum CallerSt {
@@ -143,13 +145,14 @@ impl Exec {
             Ev::Remove { k } => format!("ev=remove k={k}"),
             Ev::DropCaller { c } => format!("ev=dropcaller c={c}"),
             Ev::Abort => "ev=abort".into(),
+            Ev::CallAbort { c, k, disk, fetch } => format!("ev=callabort c={c} k={k} disk={} fetch={}", *disk as u8, *fetch as u8),
         }
     }
 
     /// Is the event applicable now (futures exist / unresolved)?
     pub fn enabled(&self, ev: &Ev) -> bool {
         match ev {
-            Ev::Call { c, .. } => !self.callers.contains_key(c),
+            Ev::Call { c, .. } | Ev::CallAbort { c, .. } => !self.callers.contains_key(c),
             Ev::Disk { c, .. } => self.disk_tx.contains_key(c) && self.dstarted.lock().contains(c),
             Ev::Origin { c, .. } => self.origin_tx.contains_key(c) && self.started.lock().contains(c),
             Ev::DropCaller { c } => matches!(self.callers.get(c), Some(CallerSt::Pending(..))),
@@ -159,7 +162,20 @@ impl Exec {
 
     pub fn exec(&mut self, ev: &Ev) -> String {
         let mut line = Self::ev_text(ev);
+        if let Ev::CallAbort { c, k, disk, fetch } = ev {
+            // register the call (this spawns the leader task) and shut the runtime down before the task runs
+            self.apply(&Ev::Call { c: *c, k: *k, disk: *disk, fetch: *fetch });
+            self.apply(&Ev::Abort);
+        } else {
+            self.apply(ev);
+        }
+        self.finish_line(&mut line);
+        line
+    }
+
+    fn apply(&mut self, ev: &Ev) {
         match ev {
+            Ev::CallAbort { .. } => {}
             Ev::Call { c, k, disk, fetch } => {
                 let spawner = Spawner::from(self.rt.as_ref().unwrap().handle().clone());
                 let (dtx, drx) = oneshot::channel::<Result<Option<u64>, ()>>();
@@ -241,6 +257,9 @@ impl Exec {
                 self.origin_tx.clear();
             }
         }
+    }
+
+    fn finish_line(&mut self, line: &mut String) {
         self.settle();
         let callers: Vec<String> = self
             .callers
@@ -267,7 +286,6 @@ impl Exec {
             show(callers),
             show(cache)
         );
-        line
     }
 
     /// Resolve or drop everything that is still outstanding; afterwards no caller may be pending.
@@ -339,9 +357,14 @@ fn gen_ev(rng: &mut Rng, ex: &Exec, next_c: &mut u64, next_v: &mut u64, keys: u6
                 }
                 Ev::DropCaller { c: *rng.pick(&cs) }
             }
+            97 => {
+                let c = *next_c;
+                let disk = rng.chance(1, 3);
+                Ev::CallAbort { c, k: rng.below(keys), disk, fetch: !disk || rng.chance(1, 2) }
+            }
             _ => Ev::Abort,
         };
-        if let Ev::Call { .. } = ev {
+        if let Ev::Call { .. } | Ev::CallAbort { .. } = ev {
             *next_c += 1;
         }
         return ev;
@@ -405,6 +428,7 @@ pub fn replay(text: &str) -> String {
             Some("remove") => Ev::Remove { k: n("k") },
             Some("dropcaller") => Ev::DropCaller { c: n("c") },
             Some("abort") => Ev::Abort,
+            Some("callabort") => Ev::CallAbort { c: n("c"), k: n("k"), disk: n("disk") == 1, fetch: n("fetch") == 1 },
             _ => continue,
         };
         if !ex.enabled(&ev) {
